@@ -480,6 +480,33 @@ def any_seq(cx: Ctx, env, depth):
 
 
 def _called_lambda(cx: Ctx, env, ty, depth):
+    if cx.cfg.higher_order and ty == I and cx.chance(2) and seq_paths(cx, env):
+        # a sequence-valued argument (itself a Where / Select) that the called lambda uses twice as the source of further operators
+        se, sty = cx.pick(seq_paths(cx, env))
+        elem = sty[1]
+        w = cx.fresh(env)
+        if cx.chance(7):
+            arg = _op(cx, "Where", _fill(cx, se), f"lambda {w}: {filter_body(cx, bind(env, w, elem), 1)}")
+        else:
+            arg = _op(cx, "Select", _fill(cx, se), f"lambda {w}: {w}")
+        sname = cx.fresh(env)
+        e_in = bind(env, sname, S(elem))
+
+        def use():
+            v = cx.fresh(e_in)
+            return f"Count({_op(cx, 'Where', sname, f'lambda {v}: {filter_body(cx, bind(e_in, v, elem), 1)}')})"
+
+        return f"(lambda {sname}: {use()} {cx.pick(['+', '-', '*'])} {use()})({arg})"
+    if cx.cfg.higher_order and ty == I and cx.chance(1):
+        # self-application: terminates in python (n steps); a rewriter that unfolds applied lambda arguments eagerly does not
+        f = cx.fresh(env)
+        g = cx.fresh(env)
+        while g == f:
+            g += "_"
+        n = cx.fresh(env)
+        while n in (f, g):
+            n += "_"
+        return f"(lambda {f}: {f}({f}, {cx.int_(1, 3)}))(lambda {g}, {n}: {n} if {n} == 0 else {g}({g}, {n} - 1) + {cx.int_(1, 4)})"
     if cx.cfg.higher_order and ty in (I, F) and cx.chance(3):
         # a lambda handed to a called lambda and applied there twice with different arguments
         fn = cx.fresh(env)
